@@ -58,6 +58,8 @@ type Runner struct {
 	Guard  Guard
 	// OnExchange, when set, is called for every recorded RPC of a peer.
 	OnExchange func(r *Runner, p *Peer, ex *world.Exchange)
+	// OnEdit, when set, is called after every successful local edit.
+	OnEdit func(r *Runner, p *Peer)
 	// MaxPeers bounds late attachers.
 	MaxPeers int
 	// AttachOpts returns the attach options for the i-th attaching peer.
@@ -261,6 +263,12 @@ func (r *Runner) Step(s Step) *Failure {
 			return failf("EDITFAIL", "c%d %s: %v", p.Idx, desc, err)
 		}
 		r.Ev["edit"]++
+		if r.OnEdit != nil {
+			r.OnEdit(r, p)
+			if r.ExFail != nil {
+				return r.ExFail
+			}
+		}
 		if r.P.Cfg.Flags["serial"] == 1 {
 			// Serial stratum: every edit is delivered to everyone before
 			// the next one, so the history contains no concurrency.
@@ -283,6 +291,35 @@ func (r *Runner) Step(s Step) *Failure {
 		}
 		r.log("c%d: %s", p.Idx, s.Op)
 		return r.sync(p, s.Op == "pushonly")
+	case s.Op == "losesync":
+		// The server handles the request completely but the response is
+		// lost; the client keeps its local changes and checkpoint and will
+		// resend the identical pack with its next sync.
+		if !p.Attached {
+			r.log("c%d: losesync (skipped: detached)", p.Idx)
+			return nil
+		}
+		r.log("c%d: sync whose response is lost", p.Idx)
+		fired := false
+		world.Rec.SetDrop(func(method string, req proto.Message) bool {
+			m, ok := req.(*api.PushPullChangesRequest)
+			if ok && m.ClientId == p.ID && !fired {
+				fired = true
+				return true
+			}
+			return false
+		})
+		err := p.C.Sync(r.ctx)
+		world.Rec.SetDrop(nil)
+		r.S.WaitIdle()
+		if err == nil || !fired {
+			return failf("HARNESS", "response drop did not fire (err=%v fired=%v)", err, fired)
+		}
+		r.Ev["response_lost"]++
+		if r.ExFail != nil {
+			return r.ExFail
+		}
+		return nil
 	case s.Op == "attach":
 		if len(r.Peers) >= r.MaxPeers {
 			return r.Step(Step{Who: s.Who, Op: "sync"})
@@ -520,6 +557,7 @@ type RunOpts struct {
 	Rebuild     bool // sweep BuildInternalDocForServerSeq at the end
 	Reverse     bool // reversed final round order
 	OnExchange  func(r *Runner, p *Peer, ex *world.Exchange)
+	OnEdit      func(r *Runner, p *Peer)
 	AfterQuiesc func(r *Runner) *Failure
 	AttachOpts  func(i int) []interface{}
 }
@@ -530,6 +568,7 @@ func Run(p Program, o RunOpts) (res Result) {
 	r := NewRunner(p, o.ProjTag)
 	r.Guard = o.Guard
 	r.OnExchange = o.OnExchange
+	r.OnEdit = o.OnEdit
 	r.AttachOpts = o.AttachOpts
 	defer func() {
 		res.Hist = r.Hist
@@ -584,4 +623,3 @@ func Run(p Program, o RunOpts) (res Result) {
 	return
 }
 
-var _ = proto.Marshal
